@@ -1,3 +1,4 @@
+import EdpVerif.Generated.MiscC19
 import EdpVerif.Lemmas.Rpc
 import EdpVerif.Lemmas.RpcMore
 import EdpVerif.Impl.RpcTerm
